@@ -12,6 +12,12 @@
  *       per cycle:  cycle <k> pre=<affinity mask of the caller before init, c.c.c> ret=<init result> nw=<myth_get_num_workers> tasks=<OS threads> main=<rank>
  *                   ranks=<r,...> stk=<default stack size attribute> bind=<attr> aff=<rank>:<ncpus>:<first>;... mig=<rank of main before fini>
  *       after fini: fini <k> state=<g_myth_init_state> tasks=<OS threads>
+ *   c15_proc first <what>
+ *       the FIRST library call of the process is <what> (create, yield, self, key_create, cond_signal,
+ *       cond_broadcast, barrier1 = myth_barrier_wait on a count-1 barrier, jc_dec = myth_join_counter_dec on a
+ *       counter of 1, mutex = lock+unlock, num_workers, worker_num, uncond_signal is not used: it waits for a
+ *       waiter); it must initialise the library implicitly.
+ *       first <what> before=<state before> r=<result> nw=<..> tasks=<..> me=<rank> state=<state>   then   fini ...
  *   c15_proc race <K> <C>
  *       C epochs; in each, K native threads leave a spin barrier and call myth_init() together; the
  *       one that became worker 0 reports and finalises.
@@ -132,6 +138,31 @@ static int do_hist(char * spec) {
   return 0;
 }
 
+/* ---- implicit initialisation by the first call, whatever it is ---- */
+static void * nop(void * a) { return a; }
+static int do_first(const char * what) {
+  int before = g_myth_init_state; long r = -99; int nw;
+  if (strcmp(what, "create") == 0) { myth_thread_t th = myth_create(nop, (void *)5); void * v = 0; myth_join(th, &v); r = (long)v; }
+  else if (strcmp(what, "yield") == 0) { myth_yield(); r = 0; }
+  else if (strcmp(what, "self") == 0) { r = myth_self() != 0; }
+  else if (strcmp(what, "key_create") == 0) { myth_key_t k; r = myth_key_create(&k, NULL); }
+  else if (strcmp(what, "cond_signal") == 0) { static myth_cond_t c = MYTH_COND_INITIALIZER; r = myth_cond_signal(&c); }
+  else if (strcmp(what, "cond_broadcast") == 0) { static myth_cond_t c = MYTH_COND_INITIALIZER; r = myth_cond_broadcast(&c); }
+  else if (strcmp(what, "barrier1") == 0) { static myth_barrier_t b; myth_barrier_init(&b, NULL, 1); r = myth_barrier_wait(&b); r = (r != 0 && r != MYTH_BARRIER_SERIAL_THREAD); }
+  else if (strcmp(what, "jc_dec") == 0) { static myth_join_counter_t j; myth_join_counter_init(&j, NULL, 1); r = myth_join_counter_dec(&j); }
+  else if (strcmp(what, "mutex") == 0) { static myth_mutex_t m = MYTH_MUTEX_INITIALIZER; r = myth_mutex_lock(&m); r += myth_mutex_unlock(&m); }
+  else if (strcmp(what, "num_workers") == 0) { r = myth_get_num_workers() > 0 ? 0 : 1; }
+  else if (strcmp(what, "worker_num") == 0) { r = myth_get_worker_num(); }
+  else return 2;
+  nw = myth_get_num_workers();
+  printf("first %s before=%d r=%ld nw=%d tasks=%d me=%d state=%d\n", what, before, r, nw, count_tasks_expect(nw),
+         myth_get_worker_num(), g_myth_init_state);
+  fflush(stdout);
+  myth_fini();
+  printf("fini 0 state=%d tasks=%d\n", g_myth_init_state, count_tasks_expect(1));
+  return 0;
+}
+
 /* ---- concurrent first use ---- */
 #define MAXK 16
 static int K;
@@ -189,6 +220,7 @@ static int do_race(int k, int c) {
 int main(int argc, char ** argv) {
   /* no alarm(): the library owns ITIMER_REAL; the caller enforces the time limit */
   if (argc >= 3 && strcmp(argv[1], "hist") == 0) return do_hist(argv[2]);
+  if (argc >= 3 && strcmp(argv[1], "first") == 0) return do_first(argv[2]);
   if (argc >= 4 && strcmp(argv[1], "race") == 0) return do_race(atoi(argv[2]), atoi(argv[3]));
   fprintf(stderr, "usage\n");
   return 2;
